@@ -1061,3 +1061,14 @@ def combinators_expanded(crate, body):
     nb = Body(crate, d)
     nb.inlined = sorted(used | set(getattr(body, "inlined", []) or []))
     return nb
+
+
+def bools_threaded(crate, body):
+    """the body with known bools at joins resolved (`matches!(x, P)` followed by `if`), nothing else changed"""
+    if not _bool_plans(body.d):
+        return body
+    d = copy.deepcopy(body.d)
+    thread_known_bools(d)
+    nb = Body(crate, d)
+    nb.inlined = list(getattr(body, "inlined", []) or [])
+    return nb
